@@ -8,7 +8,7 @@ from pyvc import spec as S
 
 EXPLANATION = "spec_append: whole-result postcondition (every cell) for all shapes and shifts; readspec request key injective (BV64 lemma)."
 UNDECIDED = ["readspec: FITS I/O, file location (spec_path/latest_mjd/number_of_fibers) -- trusted (A5)",
-             "readspec: per-HDU row selection and final argsort reorder are decided only for the request-grouping key and by the bounded job (if present)"]
+             "readspec: per-HDU row selection and final argsort reorder are decided for the request-grouping key (lemma) and by the bounded readspec_reorder job on generated file sets (FITS reader replaced by in-memory HDUs)"]
 
 
 @register("C16")
